@@ -283,15 +283,25 @@ func c10FreeRun(p *Plan) string {
 	}
 	defer d.h.Close()
 	k := 0
+	firstArg, haveFirst := 0, false
 	for i := range p.Ops {
 		op := &p.Ops[i]
-		if op.K != "next" || op.Exp == nil || op.Exp.Kind == rWaiting {
+		if op.K != "next" || op.Exp == nil {
 			continue
 		}
+		if !haveFirst {
+			// the argument that matters is the one of the first call after the previous element (a choice, possibly)
+			firstArg, haveFirst = op.Arg, true
+		}
+		if op.Exp.Kind == rWaiting {
+			continue
+		}
+		arg := firstArg
+		haveFirst = false
 		var r Resp
 		deadline := time.Now().Add(10 * time.Second)
 		for {
-			r = d.h.Next(op.Arg)
+			r = d.h.Next(arg)
 			if r.Kind != rWaiting || time.Now().After(deadline) {
 				break
 			}
